@@ -34,6 +34,7 @@ ASSUMPTIONS = [
 OUTSIDE = ["histories longer than K", "forest variants with real process pools", "annealing schedules longer than tsteps*numiter <= 2"]
 
 NETWORKS = [
+    (("aab", "abc", "cd", "d"), "", "diag-shared"),
     (("ab", "bc", "cd", "da"), "", "ring4"),
     (("ab", "bc", "cd", "de"), "ae", "chain4-out2"),
     (("abx", "bcx", "cdx"), "ax", "hyper-batch"),
@@ -55,7 +56,7 @@ def bounds(tier):
 
 
 def items(tier, seed):
-    nets = NETWORKS[:6] if tier == "quick" else NETWORKS
+    nets = NETWORKS[:7] if tier == "quick" else NETWORKS
     its = []
     for ni, (inputs, output, name) in enumerate(nets):
         for init in ("greedy", "caterpillar"):
@@ -89,6 +90,19 @@ def initial_tree(inputs, output, size, init):
         ssa.append((cur, i))
         cur = n + i - 1
     return ContractionTree.from_path(inputs, output, size, ssa_path=ssa)
+
+
+def initial_states(t0, labels, size):
+    """the fresh tree, the tree with one index already sliced, and with one index already projected"""
+    out = [(t0, [])]
+    if labels:
+        ix = labels[0]
+        out.append((t0.remove_ind(ix), [dict(op="slice_ind", params={"ix": ix})]))
+        big = [c for c in labels if size[c] > 1]
+        if big:
+            jx = big[-1]
+            out.append((t0.remove_ind(jx, project=size[jx] - 1), [dict(op="project_ind", params={"ix": jx, "value": size[jx] - 1})]))
+    return out
 
 
 def reference(inputs, output, size, arrays, tree, cache):
@@ -144,8 +158,8 @@ def run_item(item, rec):
     menu = history.op_menu(tier, max_size)
     K = 2 if tier == "quick" else 3
     n_states = history.explore_histories(
-        rec, [(t0, [])], menu, K, check, env,
-        max_states_per_level=(8 if tier == "quick" else 80),
+        rec, initial_states(t0, labels, size), menu, K, check, env,
+        max_states_per_level=int(__import__("os").environ.get("VERIF_HIST_STATES", 8 if tier == "quick" else 80)),
         max_paths_per_op=(25 if tier == "quick" else 400),
         deadline_per_op=(4.0 if tier == "quick" else 25.0),
     )
